@@ -12,6 +12,7 @@ back byte-identical.
 -/
 import Cascette.Spec.Codec
 import Cascette.Proofs.Serial
+import Cascette.Model.RootFile
 namespace Cascette.Props.C08
 open Cascette Cascette.Model.Manifest Cascette.Model.Serial Cascette.Proofs.Manifest
 open Cascette.Proofs.Serial Cascette.Spec.Codec
@@ -103,6 +104,77 @@ theorem zbs_lawful : Lawful zbsCodec ZWf where
       exact zbs_parse_build z h
 
 theorem zbs_fixed_point : Stable zbsCodec := fixed_point_of_laws _ _ zbs_lawful
+
+
+/-! ### size manifest (V1 with esize width 1..8, V2) -/
+
+def sizeCodec : Codec Bytes SFile := ⟨parseSFile, buildSFile⟩
+
+/-- `size_parse_build`: a well-formed size manifest passes `validate`, and its serialisation parses
+back to it (any trailing bytes). -/
+theorem size_parse_build (f : SFile) (h : SWf f) (trailing : Bytes) :
+    buildSFile f = some (serSFile f) ∧ parseSFile (serSFile f ++ trailing) = some f := by
+  refine ⟨?_, parseSFile_ser f h trailing⟩
+  unfold buildSFile
+  rw [sfileValid_of_wf f h]; rfl
+
+/-- `size_parse_wf`: whatever the size parser accepts is well formed (in particular every esize
+fits the header's esize width and Σ esize = total_size). -/
+theorem size_parse_wf (b : Bytes) (f : SFile) (h : parseSFile b = some f) : SWf f :=
+  (parseSFile_inv h).1
+
+/-- every accepted size manifest is its own rebuild followed by ignored trailing bytes -/
+theorem size_accepted_is_own_rebuild (b : Bytes) (f : SFile) (h : parseSFile b = some f) :
+    ∃ t, b = serSFile f ++ t := (parseSFile_inv h).2
+
+theorem size_lawful : Lawful sizeCodec SWf where
+  parse_wf := size_parse_wf
+  parse_build := fun f h => by
+    refine ⟨serSFile f, ?_, ?_⟩
+    · simp only [sizeCodec]; exact (size_parse_build f h []).1
+    · have := (size_parse_build f h []).2
+      rw [List.append_nil] at this
+      simp only [sizeCodec]; exact this
+
+/-- `size_fixed_point`: C08 for the size manifest, every accepted input. -/
+theorem size_fixed_point : Stable sizeCodec := fixed_point_of_laws _ _ size_lawful
+
+/-- builder form, after the `fix:` commit: `validate` (the model `sfileValid`) now bounds every
+esize by the field width, so a value that validates and whose tags are well formed serialises to
+bytes that parse back to it. Before the fix the value below validated (Σ = total, key length ok)
+and its serialisation — esize 300 written into one byte — was rejected (`TotalSizeMismatch`). -/
+theorem size_overwide_esize_rejected_by_validate :
+    sfileValid ⟨1, 1, 300, 1, [], [⟨[7], 300⟩]⟩ = false ∧
+    parseSFile (serSFile ⟨1, 1, 300, 1, [], [⟨[7], 300⟩]⟩) = none := by
+  constructor <;> decide
+
+/-! ### root: the full statement fails (finding `root-accepted-not-rebuildable-no-records`) -/
+
+/- full statement (does NOT hold of the tree):
+     theorem root_fixed_point : ∀ b p, RootFile.parse b = some p → ∃ y, rebuild p = some y ∧ …
+   `RootFile::parse` accepts an input without any non-empty block; `CascFormat::build` goes
+   through `RootBuilder::build`, which refuses an empty block set. -/
+
+/-- counter-witness on C03's byte-level root model: the 12-byte classic V2 header
+`TSFM, total_files = 15, named_files = 0` with no block behind it is accepted with zero blocks,
+and the builder refuses zero blocks (replayed on the real code: corpus/C08/finding-root-accepted-…). -/
+theorem root_accepted_not_rebuildable_witness :
+    (match Cascette.Model.RootFile.parse [0x54, 0x53, 0x46, 0x4D, 0x0f, 0, 0, 0, 0, 0, 0, 0] with
+     | some p => p.blocks.isEmpty
+     | none => false) = true ∧
+    Cascette.Model.RootFile.build .v2 [] = none := by
+  constructor <;> decide
+
+/-- `_partial`: with at least one (non-empty) block the rebuild step itself never refuses. -/
+theorem root_build_some_partial (v : Cascette.Model.RootFile.Version)
+    (blocks : List (Nat × Nat × List Cascette.Model.RootFile.Rec)) (h : blocks ≠ []) :
+    (Cascette.Model.RootFile.build v blocks).isSome = true := by
+  unfold Cascette.Model.RootFile.build
+  have : blocks.isEmpty = false := by
+    cases blocks with
+    | nil => exact absurd rfl h
+    | cons a l => rfl
+  simp [this]
 
 /-- the hypotheses are satisfiable by non-trivial instances (a V2 install manifest with one tag
 and one file; a ZBSDIFF container with all three blocks non-empty) -/
